@@ -108,12 +108,10 @@ def gen_cases(tier):
     sup = list(GEN) + list(ALT)
     seqs = [list(s) for n in (1, 2) for s in itertools.product(keys, repeat=n)]
     seqs += [list(s) for s in itertools.product(sup, repeat=3)]
-    # duplicates of an ALTER target make the grouping ambiguous: skip histories repeating an alter target
-    seqs = [s for s in seqs if all(s.count(ALT[a][0]) <= 1 for a in s if a in ALT)]
+    # (a table may be defined twice: an ALTER / INDEX then belongs to the nearest preceding definition)
     cases = [{"kind": "seq", "seq": s} for s in seqs]
     # unsupported statements inserted at every position of supported scripts of depth <= 2 (quick) / 3 (thorough)
     base = [list(s) for n in ((1, 2, 3) if tier == "thorough" else (1, 2)) for s in itertools.product(["T1", "T2", "SEQ", "KW", "ALTTAB", "A_UQ", "HQL"], repeat=n)]
-    base = [s for s in base if all(s.count(ALT[a][0]) <= 1 for a in s if a in ALT)]
     uns = list(UNS)
     for b in base:
         if len(b) < 2:
@@ -171,17 +169,25 @@ def alone(text):
 
 
 def expected(seq):
-    out = []
+    """in-order concatenation of the stand-alone results; an ALTER / CREATE INDEX belongs to the nearest PRECEDING definition of its
+    table (a table may be defined again later in the script: what follows a statement never changes what it yields)"""
+    segs = []  # [definition key, [alter keys]] in script order; None for statements that yield nothing to merge into
+    last_def = {}
     for i, k in enumerate(seq):
         if k in ALT:
-            if ALT[k][0] not in seq[:i]:
+            tgt = ALT[k][0]
+            if tgt not in last_def:
                 return None  # alter before/without its table: raises by C04 -> history skipped
+            segs[last_def[tgt]][1].append(k)
             continue
         if k in UNS:
             continue
-        nxt = seq[i + 1:]
-        script = [GEN[k]] + [ALT[a][1] for a in nxt if a in ALT and ALT[a][0] == k]
-        r, _ = alone("\n".join(script))
+        segs.append([k, []])
+        if any(v[0] == k for v in ALT.values()):
+            last_def[k] = len(segs) - 1
+    out = []
+    for k, alts in segs:
+        r, _ = alone("\n".join([GEN[k]] + [ALT[a][1] for a in alts]))
         if r[0] != "ok":
             return ["exc"]
         out.extend(entities(r[1]))
